@@ -130,10 +130,12 @@ def viewBranch (ops : List VOp) (states : List VState) : String :=
 
 /-! ## families `combo`, `dcombo`: attribute / dataset pickers
 
-`(combo (nData idx (op …)) <snapshots>)`, snapshot =
+`(combo (nData idx (op …) [hasDc]) <snapshots>)` (`hasDc = F`: helper built without data collection,
+subscribes lazily; default `T`), snapshot =
 `((F numeric datetime categorical pixel world derived none) (H (id (m (cid kind)…) (dv cid…) (p cid…) (w cid…))…)
-  (c choice…) (s sel) (e T|F) (q depth))`, `choice = N | (sd d) | sm | sdv | sc | (c k)`, `sel = N | k`.
-`F`, `H` are read from the real helper and the real `Data` objects (`H` = `helper._data`). -/
+  (c choice…) (s sel) (e T|F) (q depth) (u hubSet subscribed))`, `choice = N | (sd d) | sm | sdv | sc | (c k)`,
+`sel = N | k`.  `F`, `H`, `u` are read from the real helper, the real `Data` objects and the real hub
+(`H` = `helper._data`, `u` = `helper._hub is not None`, `helper in hub._subscriptions`). -/
 section Combo
 open GlueVerif.C18Combo
 
@@ -220,6 +222,7 @@ def copOf? : Sexp → Option C18Combo.COp
   | .list [.atom "ha", d] => d.toNat?.map .helperAppend
   | .list [.atom "hr", d] => d.toNat?.map .helperRemove
   | .list (.atom "hm" :: ds) => (ds.mapM toNat?).map .setMultiple
+  | .list [.atom "hc"] => some .helperClear
   | .list [.atom "fl", f, b] => do some (.setFlag (← flagOf? f) (← b.toBool?))
   | .list [.atom "dr", d] => d.toNat?.map .dcRemove
   | .list [.atom "da", d] => d.toNat?.map .dcAppend
@@ -269,30 +272,32 @@ def dsOf? : Sexp → Option DS
 def comboSnap (st : CState) : Sexp :=
   .list [flagsSexp st.F, tagged "H" ((st.hdata.map st.data).map dsSexp),
          tagged "c" (st.pick.choices.map choiceSexp), tagged "s" [optNatSexp st.pick.sel],
-         tagged "e" [ofBool st.err], tagged "q" [ofNat st.depth]]
+         tagged "e" [ofBool st.err], tagged "q" [ofNat st.depth], tagged "u" [ofBool st.hub, ofBool st.sub]]
 
 /-- Spec verdict on a python helper snapshot; `relevant` = the datasets the client asked for that
 are still in the collection (ghost, computed from the case).  Inside a hub delay block the helper
 has not been told yet: only well-formedness is demanded there. -/
 def pyComboOk (relevant : List Nat) (depth : Nat) : Sexp → Bool
   | .list [f, .list (.atom "H" :: hs), .list (.atom "c" :: cs), .list [.atom "s", s],
-           .list [.atom "e", _], .list [.atom "q", _]] =>
-    match flagsOf? f, hs.mapM dsOf?, cs.mapM choiceOf?, optNat? s with
-    | some F, some ds, some choices, some sel =>
-      if depth > 0 then true
-      else ds.map (·.id) == relevant && comboOk F ds choices sel
-    | _, _, _, _ => false
+           .list [.atom "e", _], .list [.atom "q", _], .list [.atom "u", _, sub]] =>
+    match flagsOf? f, hs.mapM dsOf?, cs.mapM choiceOf?, optNat? s, sub.toBool? with
+    | some F, some ds, some choices, some sel, some sub =>
+      -- a helper that holds a dataset is subscribed to the hub: at every moment, also inside a block
+      subOk (ds.map (·.id)) sub &&
+      (if depth > 0 then true
+       else ds.map (·.id) == relevant && comboOk F ds choices sel)
+    | _, _, _, _, _ => false
   | _ => false
 
-def stepCombo (n idx : Sexp) (ops : List Sexp) (pyout : Sexp) : String :=
+def stepCombo (hasDc : Bool) (n idx : Sexp) (ops : List Sexp) (pyout : Sexp) : String :=
   match tmplsOf? stdT n, idx.toInt?, ops.mapM copOf? with
   | some ts, some idx, some ops =>
-    let s0 := cinitT ts idx
+    let s0 := cinitTH hasDc ts idx
     let states := (ops.foldl (fun (acc : List CState × CState) op =>
         let s' := cstep acc.2 op
         (acc.1 ++ [s'], s')) ([s0], s0)).1
     let implok := states.all fun st =>
-      st.depth > 0 || comboOk st.F (st.hdata.map st.data) st.pick.choices st.pick.sel
+      subOk st.hdata st.sub && (st.depth > 0 || comboOk st.F (st.hdata.map st.data) st.pick.choices st.pick.sel)
     let ok := match pyout with
       | .list pys => pys.length == states.length &&
           (pys.zip states).all fun (py, st) => pyComboOk st.hdata st.depth py
@@ -303,7 +308,15 @@ def stepCombo (n idx : Sexp) (ops : List Sexp) (pyout : Sexp) : String :=
           | .select v => POp.admissible acc.2.pick (.select v)
           | _ => true
         (acc.1 && adm, cstep acc.2 op)) (true, s0))).1
-    let br := (if states.any (fun st => st.depth > 0) then "d" else "-") ++
+    -- the helper was emptied and holds a dataset again later
+    let refilled := (states.foldl (fun (acc : Nat × Bool) st =>
+        match acc.1, st.hdata.isEmpty with
+        | 0, false => (1, acc.2)
+        | 1, true => (2, acc.2)
+        | 2, false => (2, true)
+        | k, _ => (k, acc.2)) (0, false)).2
+    let br := (if hasDc then "c" else "l") ++ (if refilled then "r" else "-") ++
+              (if states.any (fun st => st.depth > 0) then "d" else "-") ++
               (if states.any (fun st => st.err) then "e" else "-") ++
               (if states.any (fun st => st.hdata.length > 1) then "m" else "-") ++
               (if states.any (fun st => st.pick.sel.isSome) then "s" else "-") ++
@@ -543,19 +556,28 @@ def layerData : Layer → Option Nat
 
 def layerDatasets (arts : List Art) : List Nat := dedup (arts.filterMap fun a => layerData a.layer)
 
-def vpIdxs (cls : String) : List Int := if cls == "sc" then [0, 1] else [0]
+/-- scatter: `x_att`, `y_att`; histogram: `x_att`.  The viewer-state pickers of the image and profile
+viewers offer coordinate components only (`numeric=False …`), which no component operation touches:
+their histories are run for the layer bookkeeping, with no picker observed. -/
+def vpIdxs (cls : String) : List Int := if cls == "sc" then [0, 1] else if cls == "hi" then [0] else []
 
-def pickSnap (table : Nat → DS) (F : Flags) (hdata : List Nat) (choices : List Choice) (sel : Option Nat) : Sexp :=
+def pickSnap (table : Nat → DS) (hub : Bool) (F : Flags) (hdata : List Nat) (choices : List Choice) (sel : Option Nat) : Sexp :=
   .list [flagsSexp F, tagged "H" ((hdata.map table).map dsSexp), tagged "c" (choices.map choiceSexp),
-         tagged "s" [optNatSexp sel], tagged "e" [ofBool false], tagged "q" [ofNat 0]]
+         tagged "s" [optNatSexp sel], tagged "e" [ofBool false], tagged "q" [ofNat 0],
+         tagged "u" [ofBool (hub || hdata.isEmpty), ofBool (hub || hdata.isEmpty)]]
 
 /-- a viewer op, or `(vfl p flag b)`: flag `flag` of the helper of picker `p` set to `b`. -/
 inductive VPOp where
   | v (op : VOp)
   | fl (p : Nat) (f : FlagName) (b : Bool)
+  /-- a component of a dataset is added / removed / renamed / the components reordered / an id replaced
+  (`ac ad rc rn ro rp` of family `combo`). -/
+  | comp (op : C18Combo.COp)
 
 def vpopOf? : Sexp → Option VPOp
   | .list [.atom "vfl", p, f, b] => do some (.fl (← p.toNat?) (← flagOf? f) (← b.toBool?))
+  | e@(.list (.atom a :: _)) =>
+    if ["ac", "ad", "rc", "rn", "ro", "rp"].contains a then (copOf? e).map .comp else (vopOf? e).map .v
   | e => (vopOf? e).map .v
 
 abbrev PickRow := List Nat × Flags × List Choice × Option Nat
@@ -565,41 +587,56 @@ def stepVPick (n c cls : Sexp) (ops : List Sexp) (pyout : Sexp) : String :=
   | some ts, some colors, some ops =>
     let cls := match cls with | .atom a => a | _ => ""
     let idxs := vpIdxs cls
-    let table := tmplTable ts 0 0
+    -- the datasets' component tables: a `CState` without datasets in its helper, stepped by the
+    -- component ops of the combo model
+    let c0 := cinitTH false ts 0
     let v0 := C18Viewer.init ts.length colors
-    -- the pickers: after every step the helper holds the datasets of the layers; echo keeps the
-    -- selection if it is still offered
-    let pickStep := fun (v : VState) (Fs : List Flags) (prev : List (Option Nat)) =>
+    -- the pickers: after every step the helper holds the datasets of the layers
+    -- (`_layers_changed` → `set_multiple_data(layers_data)`: the first non-empty list makes the helper
+    -- latch on to the hub, for good); a component change of one of its datasets reaches it through
+    -- the hub and makes it refresh; echo keeps the selection if it is still offered
+    let pickStep := fun (table : Nat → DS) (v : VState) (Fs : List Flags) (prev : List (Option Nat)) =>
       let hd := layerDatasets v.arts
       ((idxs.zip Fs).zip prev).map fun ((idx, F), pv) =>
         let ch := refresh F (hd.map table)
         ((hd, F, ch, choicesUpdated idx ch pv) : PickRow)
     let F0 := idxs.map fun _ => vpFlags
-    let p0 := pickStep v0 F0 (idxs.map fun _ => none)
-    let trace := (ops.foldl (fun (acc : List (VState × List PickRow) × VState × List Flags × List PickRow) op =>
+    let p0 := pickStep c0.data v0 F0 (idxs.map fun _ => none)
+    let trace := (ops.foldl (fun (acc : List (VState × List PickRow × (Nat → DS) × Bool) × VState × List Flags × List PickRow × CState × Bool) op =>
         let v : VState := acc.2.1
         let Fs : List Flags := acc.2.2.1
-        let ps : List PickRow := acc.2.2.2
+        let ps : List PickRow := acc.2.2.2.1
+        let cs : CState := acc.2.2.2.2.1
+        let hub : Bool := acc.2.2.2.2.2
         let v' : VState := match op with
           | .v o => C18Viewer.step v o
-          | .fl _ _ _ => { v with err := false }
+          | _ => { v with err := false }
+        let cs' : CState := match op with
+          | .comp o => cstep cs o
+          | _ => cs
         -- the helpers' flags are configuration of the viewer-state class, not part of a saved session:
         -- a restored viewer has the defaults again
         let Fs' : List Flags := match op with
           | .v o => if o == .restore then F0 else Fs
           | .fl p f b => ((List.range Fs.length).zip Fs).map fun (x : Nat × Flags) => if x.1 == p then x.2.set f b else x.2
-        let ps' := pickStep v' Fs' (ps.map fun (r : PickRow) => r.2.2.2)
-        (acc.1 ++ [(v', ps')], (v', Fs', ps'))) ([(v0, p0)], (v0, F0, p0))).1
+          | .comp _ => Fs
+        let ps' := pickStep cs'.data v' Fs' (ps.map fun (r : PickRow) => r.2.2.2)
+        -- a restored viewer state has new helpers
+        let hub0 : Bool := match op with
+          | .v o => if o == .restore then false else hub
+          | _ => hub
+        let hub' := hub0 || !(layerDatasets v'.arts).isEmpty
+        (acc.1 ++ [(v', ps', cs'.data, hub')], (v', Fs', ps', cs', hub'))) ([(v0, p0, c0.data, false)], (v0, F0, p0, c0, false))).1
     let states := trace.map (·.1)
-    let picks := trace.map (·.2)
+    let picks := trace.map fun t => (t.2.1, t.2.2.1, t.2.2.2)
     let named := (states.foldl (fun (acc : List (Sexp × Want) × Ren × Ren) v =>
         let ms := renExtend acc.2.1 (subIdsOf v)
         let ma := renExtend acc.2.2 (artIdsOf v)
         (acc.1 ++ [(snapshot ms ma v, renWant ms v.want)], ms, ma)) ([], [], [])).1
-    let out := (named.zip picks).map fun ((vs, _), ps) =>
-      Sexp.list [vs, .list (ps.map fun (hd, F, ch, s) => pickSnap table F hd ch s)]
+    let out := (named.zip picks).map fun ((vs, _), (ps, table, hub)) =>
+      Sexp.list [vs, .list (ps.map fun (hd, F, ch, s) => pickSnap table hub F hd ch s)]
     let implok := states.all specOkV &&
-      picks.all fun ps => ps.all fun (hd, F, ch, s) => comboOk F (hd.map table) ch s
+      picks.all fun (ps, table, hub) => ps.all fun (hd, F, ch, s) => subOk hd hub && comboOk F (hd.map table) ch s
     let ok := match pyout with
       | .list pys => pys.length == named.length &&
           (pys.zip named).all fun (py, (_, w)) => match py with
@@ -611,8 +648,20 @@ def stepVPick (n c cls : Sexp) (ops : List Sexp) (pyout : Sexp) : String :=
             | _ => false
       | _ => false
     let vops := ops.filterMap fun o => match o with | .v o => some o | _ => none
-    let hasExt := picks.any fun ps => ps.any fun (hd, _, _, _) => (hd.map table).any fun d => d.main.any (·.2 == .extended)
-    driverResult (.list out) ok implok true (viewBranch vops states ++ (if hasExt then "x" else "-"))
+    let hasExt := picks.any fun (ps, table, _) => ps.any fun (hd, _, _, _) => (hd.map table).any fun d => d.main.any (·.2 == .extended)
+    -- the viewer was emptied and refilled, and a component changed afterwards
+    let phase := (trace.zip (ops.map some ++ [none])).foldl (fun (ph : Nat) (x : (VState × List PickRow × (Nat → DS) × Bool) × Option VPOp) =>
+        let has := !(layerDatasets x.1.1.arts).isEmpty
+        let ph := match ph, has with
+          | 0, true => 1
+          | 1, false => 2
+          | 2, true => 3
+          | k, _ => k
+        match ph, x.2 with
+        | 3, some (.comp _) => 4
+        | k, _ => k) 0
+    driverResult (.list out) ok implok true
+      (viewBranch vops states ++ (if hasExt then "x" else "-") ++ (if phase == 4 then "R" else if phase == 3 then "r" else "-") ++ cls)
   | _, _, _ => driverError "vpick-args"
 
 end VPick
@@ -622,7 +671,9 @@ def step (line : String) : String :=
   | some (.list [.atom "kinds", case, pyout]) => stepKinds case pyout
   | some (.list [.atom "vpick", .list [n, c, cls, .list ops], pyout]) => stepVPick n c cls ops pyout
   | some (.list [.atom "view", .list [n, c, cls, .list ops], pyout]) => stepView n c cls ops pyout
-  | some (.list [.atom "combo", .list [n, idx, .list ops], pyout]) => stepCombo n idx ops pyout
+  | some (.list [.atom "combo", .list [n, idx, .list ops], pyout]) => stepCombo true n idx ops pyout
+  | some (.list [.atom "combo", .list [n, idx, .list ops, .atom "F"], pyout]) => stepCombo false n idx ops pyout
+  | some (.list [.atom "combo", .list [n, idx, .list ops, .atom "T"], pyout]) => stepCombo true n idx ops pyout
   | some (.list [.atom "dcombo", .list [n, auto, idx, inDc, .list ops], pyout]) => stepDcombo n auto idx inDc ops pyout
   | some (.list [.atom "axes", .list [ndims, worlds, .list ops], pyout]) => stepAxes ndims worlds ops pyout
   | _ => driverError "unknown-family"
